@@ -235,7 +235,7 @@ func (wtr *XMLWtr) getStringValue(p *node.Path, v val.Value) (string, error) {
 	case val.FmtIdentityRef:
 		stringValue = v.String()
 		leafMod := meta.OriginalModule(p.Meta)
-		bases := p.Meta.(meta.HasType).Type().Base()
+		bases := p.Meta.(meta.HasType).Type().IdentityBases()
 		idty := meta.FindIdentity(bases, stringValue)
 		if idty == nil {
 			err = fmt.Errorf("could not find ident '%s'", stringValue)
